@@ -26,3 +26,41 @@ Proof.
   exact (py_traph_reopen_spec d rs h H1 H2 d' rs' sg sgl Hrep Hhd Hlt Hl).
 Qed.
 Print Assumptions C11_source_reopen.
+
+(* ---- FRESH: for every default rule and every well-formed rule list, the end of Traph.__init__ with create = True on two empty
+   stores (any cursor) builds, for every sufficient fuel, the RAM tables, header objects and bytes of the model's `init`. *)
+From Traph Require GenTraphIAll.
+Theorem C11_source_fresh : forall d rs c1 c2, wf_rules rs ->
+  nb (init d rs) * 128 < 2 ^ 64 -> lastwe (init d rs) + 1 < 2 ^ 32 ->
+  exists f0 rm hd lhd sg sgl, (forall f, (f0 <= f)%nat ->
+     py_traph_init_tail f (mk_pm 128 [] c1) (mk_pm 16 [] c2) d rs true = Some (rm, hd, lhd, sg, sgl)) /\
+    ramrep (init d rs) rm /\ hrep (init d rs) hd sg /\ lrep (stubs (init d rs)) sgl.
+Proof. exact GenTraphIAll.py_traph_init_fresh_closed. Qed.
+
+(* ---- CLEAR: for EVERY history, whatever the two stores hold, the translated Traph.clear empties them and builds the RAM tables,
+   header objects and bytes of the state after the OClear request; with a default rule and a rule list given that state is
+   `init d rs` (C11_clear_is_init): the cleared index IS a freshly created one, bytes and tables. *)
+Theorem C11_source_clear : forall d rs h, wf_rules rs -> Forall wf_op h ->
+  let s := run d rs h in
+  forall rm sg sgl od ors, ramrep s rm -> pm_block_size sg = 128 -> pm_block_size sgl = 16 ->
+  wf_op (OClear od ors) ->
+  let s' := fst (Ops.step s (OClear od ors)) in nb s' * 128 < 2 ^ 64 -> lastwe s' + 1 < 2 ^ 32 ->
+  exists f0 rm' hd lhd sg' sgl', (forall f, (f0 <= f)%nat -> py_traph_clear f rm sg sgl od ors = Some (rm', hd, lhd, sg', sgl')) /\
+    ramrep s' rm' /\ hrep s' hd sg' /\ lrep (stubs s') sgl'.
+Proof.
+  intros d rs h _ _ s rm sg sgl od ors Hram Hb1 Hb2 Hwf s'.
+  exact (GenTraphIAll.py_traph_clear_closed s rm sg sgl od ors Hram Hb1 Hb2 Hwf).
+Qed.
+
+Corollary C11_source_clear_is_fresh : forall s rm sg sgl d rs, ramrep s rm -> pm_block_size sg = 128 -> pm_block_size sgl = 16 ->
+  wf_rules rs -> nb (init d rs) * 128 < 2 ^ 64 -> lastwe (init d rs) + 1 < 2 ^ 32 ->
+  exists f0 rm' hd lhd sg' sgl', (forall f, (f0 <= f)%nat -> py_traph_clear f rm sg sgl (Some d) (Some rs) = Some (rm', hd, lhd, sg', sgl')) /\
+    ramrep (init d rs) rm' /\ hrep (init d rs) hd sg' /\ lrep (stubs (init d rs)) sgl'.
+Proof.
+  intros s rm sg sgl d rs Hram Hb1 Hb2 Hwf Hsz Hlt.
+  pose proof (GenTraphIAll.py_traph_clear_closed s rm sg sgl (Some d) (Some rs) Hram Hb1 Hb2 Hwf) as H.
+  cbv zeta in H. rewrite (ReopenFacts.C11_clear_is_init d rs s) in H. exact (H Hsz Hlt).
+Qed.
+Print Assumptions C11_source_fresh.
+Print Assumptions C11_source_clear.
+Print Assumptions C11_source_clear_is_fresh.
